@@ -1038,6 +1038,10 @@ def run(ck):
                 iters = rs6.choice([0, 5, 60, 500, 1500] if quick else [0, 2, 30, 300, 1500, 4000])
                 line = " ".join(["pdst"] + pb.toks() + ["k=%d" % rs6.choice([1, 2, 3]), "bias=" + B(rs6.choice([0.05, 0.0, 0.4, 1.0])),
                                                         "seed=%d" % seed, "iters=%d" % iters])
+                if rep % 2 == 1 or rs6.chance(1, 3):
+                    # a second solve() on the same object, with or without clearing the problem definition in between
+                    line += " resume=%d clearsol=%d" % (rs6.choice([0, 10, 200, 800]), rs6.below(2))
+                    ck.count("pdst-lockstep:resumed-solves")
                 rjobs.append(("PDST", pb, seed, iters, line))
     plays, impls = [], []
     with concurrent.futures.ThreadPoolExecutor(max_workers=min(16, os.cpu_count() or 4)) as ex:
@@ -1046,6 +1050,10 @@ def run(ck):
             out, rc, err = fu.result()
             tag = {"SST": "sst-lockstep", "EST": "est-lockstep", "KPIECE1": "kpiece-lockstep", "PDST": "pdst-lockstep"}.get(j[0], "rrt-lockstep")
             sol = judge_plan(ck, hbin, j[0], j[1], j[2], j[3], j[4], out, rc, err, tag, records)
+            if sol is not None and " ### status=" in out[0] and " clearsol=1" in j[4]:
+                # the resumed solve published into a cleared problem definition: its path goes through the oracle as well
+                part2 = out[0].partition(" ### ")[2]
+                judge_plan(ck, hbin, j[0], j[1], j[2], j[3], j[4], [part2], rc, err, tag + "-resumed", records)
             if sol is not None and len(out) >= 2:
                 plays.append(out[1])
                 impls.append((j, out[0]))
